@@ -12,6 +12,9 @@ def check(ctx):
     tr = os.path.join(ctx.scratch, "c09_live.ndjson")
     rc, err, events = lc.run_live(ctx, ["live-c09", 12 if thorough else 4, 120 if thorough else 40, tr], timeout=1800)
     lc.crash_check(ctx, rc, err, "live-c09")
+    for e in events:
+        if e["ev"] == "cmd_stranded":
+            ctx.violation("caller-stranded", "SendActiveMessage(k=%s) had not returned 4 s after its time-out" % e.get("k"), {"kind": "live", "event": e})
     conns = lc.split_conns(events)
     lc.trace_conn(ctx, conns, "c09")
     nre = sum(1 for e in events if e["ev"] == "recheck")
